@@ -131,6 +131,46 @@ def paths():
     return [s for s in new()["str"] if re.fullmatch(r"/[A-Za-z0-9_./-]{3,100}", s) and not s.startswith("//")][:6]
 
 
+def signatures(repo=None):
+    """'module:function' -> [parameter names] for the public functions of the package (by `ast`)"""
+    repo = repo or os.environ.get("VERIF_REPO", "/repo")
+    out = {}
+    for dp, dn, fn in os.walk(os.path.join(repo, "webauthn")):
+        for f in fn:
+            if not f.endswith(".py"):
+                continue
+            mod = os.path.relpath(os.path.join(dp, f), repo)[:-3].replace(os.sep, ".")
+            if mod.endswith(".__init__"):
+                mod = mod[:-9]
+            try:
+                tree = ast.parse(open(os.path.join(dp, f), encoding="utf-8").read())
+            except Exception:
+                continue
+            for node in tree.body:
+                if isinstance(node, ast.FunctionDef) and not node.name.startswith("_"):
+                    a = node.args
+                    out[mod + ":" + node.name] = [x.arg + "|" + (ast.unparse(x.annotation) if x.annotation is not None else "") for x in a.posonlyargs + a.args + a.kwonlyargs]
+    return out
+
+
+def new_parameters(repo=None):
+    """{function name: [(parameter, annotation text)]} for parameters the changed source adds to functions that existed before"""
+    try:
+        base = json.load(open(BASELINE)).get("signatures", {})
+    except Exception:
+        base = {}
+    out = {}
+    if not base:
+        return out
+    for qn, params in signatures(repo).items():
+        if qn in base:
+            old = {p.split("|")[0] for p in base[qn]}
+            new_ = [tuple(p.split("|", 1)) for p in params if p.split("|")[0] not in old]
+            if new_:
+                out[qn.split(":")[1]] = new_
+    return out
+
+
 def new_callables(repo=None):
     try:
         base = set(json.load(open(BASELINE)).get("api", []))
@@ -144,6 +184,7 @@ def write_baseline(repo):
     d = {k: sorted(v, key=str) for k, v in h.items()}
     d["api"] = sorted(public_callables(repo))
     d["imports"] = sorted(imported_modules(repo))
+    d["signatures"] = signatures(repo)
     json.dump(d, open(BASELINE, "w"), indent=0)
 
 
